@@ -1,7 +1,7 @@
 (* Extraction of the executable models to OCaml.  ExtrOcamlBasic only; no Extract Constant /
    Extract Inductive of our own: nat, N, Z, positive, ascii stay the extracted inductives. *)
 Require Import ExtrOcamlBasic.
-Require Import Bytes Base64Model Rfc4648 NumParse Restartable TablesGen ParserModel ParserInst RouterModel QueueModel.
+Require Import Bytes Base64Model Rfc4648 NumParse Restartable TablesGen ParserModel ParserInst RouterModel QueueModel PromiseConc PromiseConcLemmas.
 Extraction "model.ml"
   Bytes.n2b Bytes.b2n
   Base64Model.encode Base64Model.decode Base64Model.set_basic Base64Model.get_basic
@@ -10,4 +10,6 @@ Extraction "model.ml"
   ParserModel.typed_get ParserModel.id_content_length ParserModel.id_transfer_encoding
   ParserInst.parse_inst ParserInst.reg_name Bytes.lower_bytes
   RouterModel.add_route RouterModel.remove_route RouterModel.route
-  QueueModel.run0 QueueModel.run_old QueueModel.init QueueModel.quiescent.
+  QueueModel.run0 QueueModel.run_old QueueModel.init QueueModel.quiescent
+  PromiseConcLemmas.init0 PromiseConcLemmas.run1 PromiseConc.grant PromiseConc.finished PromiseConc.count
+  PromiseConcLemmas.cfg_base PromiseConcLemmas.cfg_derived PromiseConcLemmas.cfg_both PromiseConcLemmas.cfg_two_derived.
